@@ -82,6 +82,17 @@ def iso {α β} (a : Codec α) (f : α → β) (g : β → α) : Codec β where
   get s := (a.get s).map fun p => (f p.1, p.2)
   size y := a.size (g y)
 
+/-- `isize`/`i64`: two's complement little endian -/
+def i64 : Codec Int where
+  put x := leBytes (x % 2^64).toNat 8
+  get s := if s.length < 8 then none else
+    let n := ofLe (s.take 8)
+    some (if n ≥ 2^63 then (n : Int) - 2^64 else (n : Int), s.drop 8)
+  size _ := 8
+
+/-- `Vec<S>` held as an `Array` -/
+def arr {α} (a : Codec α) : Codec (Array α) := iso (vec a) List.toArray Array.toList
+
 /-- round trip with exact consumption, byte count, and failure on every strict prefix -/
 structure Good {α} (c : Codec α) (valid : α → Prop) : Prop where
   rt  : ∀ x rest, valid x → c.get (c.put x ++ rest) = some (x, rest)
@@ -90,11 +101,7 @@ structure Good {α} (c : Codec α) (valid : α → Prop) : Prop where
 
 end Codec
 
-/-- `BitVector`: `words` then `len` -/
-def BV.codec : Codec BV :=
-  Codec.iso (Codec.seq (Codec.vec Codec.u64) Codec.u64) (fun p => ⟨p.1.toArray, p.2⟩) (fun b => (b.words.toList, b.len))
-/-- `CompactVector`: `chunks`, `len`, `width` -/
-def CV.codec : Codec CV :=
-  Codec.iso (Codec.seq BV.codec (Codec.seq Codec.u64 Codec.u64)) (fun p => ⟨p.1, p.2.1, p.2.2⟩) (fun v => (v.chunks, v.len, v.width))
+-- the codecs of the crate's structures (`BV.codec`, `CV.codec`, `R9.codec`, …) are GENERATED from the
+-- `Serializable` impls of the Rust sources by tools/gen_codecs.py into `Sucds/Gen/Codecs.lean`.
 
 end Sucds
